@@ -1240,17 +1240,22 @@ impl<T, A: Allocator> RawTable<T, A> {
         eq: impl FnMut(usize, &T) -> bool,
     ) -> [Option<&'_ mut T>; N] {
         unsafe {
-            let ptrs = self.get_many_mut_pointers(hashes, eq);
+            let buckets = self.get_many_mut_buckets(hashes, eq);
 
-            for (i, cur) in ptrs.iter().enumerate() {
-                if cur.is_some() && ptrs[..i].contains(cur) {
-                    panic!("duplicate keys found");
+            // Compare the buckets themselves rather than the element pointers: all
+            // elements of a zero-sized type share a single (dangling) address, while
+            // `Bucket::ptr` is distinct for every bucket of a table.
+            for (i, cur) in buckets.iter().enumerate() {
+                if let Some(cur) = cur {
+                    if buckets[..i].iter().flatten().any(|b| b.ptr == cur.ptr) {
+                        panic!("duplicate keys found");
+                    }
                 }
             }
             // All bucket are distinct from all previous buckets so we're clear to return the result
             // of the lookup.
 
-            ptrs.map(|ptr| ptr.map(|mut ptr| ptr.as_mut()))
+            buckets.map(|b| b.map(|b| b.as_non_null().as_mut()))
         }
     }
 
@@ -1266,12 +1271,18 @@ impl<T, A: Allocator> RawTable<T, A> {
     unsafe fn get_many_mut_pointers<const N: usize>(
         &mut self,
         hashes: [u64; N],
-        mut eq: impl FnMut(usize, &T) -> bool,
+        eq: impl FnMut(usize, &T) -> bool,
     ) -> [Option<NonNull<T>>; N] {
-        array::from_fn(|i| {
-            self.find(hashes[i], |k| eq(i, k))
-                .map(|cur| cur.as_non_null())
-        })
+        self.get_many_mut_buckets(hashes, eq)
+            .map(|b| b.map(|cur| cur.as_non_null()))
+    }
+
+    unsafe fn get_many_mut_buckets<const N: usize>(
+        &mut self,
+        hashes: [u64; N],
+        mut eq: impl FnMut(usize, &T) -> bool,
+    ) -> [Option<Bucket<T>>; N] {
+        array::from_fn(|i| self.find(hashes[i], |k| eq(i, k)))
     }
 
     /// Returns the number of elements the map can hold without reallocating.
